@@ -286,6 +286,17 @@ func c09Corpus() []jCase {
 			{Op: "answer"}, {Op: "sld", Ty: "answer"},
 			{Op: "add", Kind: "audio", Dir: "recvonly"}, {Op: "add", Kind: "audio", Dir: "recvonly"}, {Op: "offer"},
 			{Op: "add", Kind: "audio", Dir: "recvonly"}, {Op: "offer"}}},
+		// stale descriptions (Coq: ex_stale_offer, ex_stale_answer): an offer created before a remote
+		// exchange and applied after it; an answer created for an earlier remote offer
+		{Peers: 1, Ops: []jOp{
+			{Op: "add", Kind: "audio", Dir: "sendrecv"}, {Op: "offer"},
+			{Op: "srd", Ty: "offer", Desc: &jDesc{Secs: []jSec{sec("video", "v", "sendonly")}, Group: jStr("BUNDLE v")}},
+			{Op: "answer"}, {Op: "sld", Ty: "answer"}, {Op: "sld", Ty: "offer"}}},
+		{Peers: 1, Ops: []jOp{
+			{Op: "srd", Ty: "offer", Desc: &jDesc{Secs: []jSec{sec("audio", "a", "sendrecv")}, Group: jStr("BUNDLE a")}},
+			{Op: "answer"}, {Op: "sld", Ty: "answer"},
+			{Op: "srd", Ty: "offer", Desc: &jDesc{Secs: []jSec{sec("audio", "a", "sendrecv"), sec("video", "b", "sendonly")}, Group: jStr("BUNDLE a b")}},
+			{Op: "sld", Ty: "answer"}}},
 		// three rounds, both sides offering, additions on both sides
 		{Peers: 2, Ops: []jOp{
 			{P: 0, Op: "add", Kind: "audio", Dir: "sendrecv"}, {P: 0, Op: "add", Kind: "video", Dir: "sendrecv"}, {P: 0, Op: "dc"},
